@@ -1,7 +1,7 @@
 (* Props/C07.v — property C07: theorems only; each closed by [exact] of a lemma proved elsewhere, followed by
    Print Assumptions. The statements are about every trace admitted by the protocol model (Sim/Proto.v,
    rules with constants regenerated from /repo), at every position of the trace. *)
-From LE Require Import Base Ev World Mon Mon2 Proto Consts GenGuards Config ConfigSpec GenConfig SimBasics SimOwn SimCallbacks SimTheorems GuardFacts Timing Witness Env EnvT SimRefresh SimLease SimWatch SimLeaseT SimLeaseC SimStable Witness2.
+From LE Require Import Base Ev World Mon Mon2 Proto Consts GenGuards Config ConfigSpec GenConfig SimBasics SimOwn SimCallbacks SimTheorems GuardFacts Timing Witness Env EnvT SimRefresh SimLease SimWatch SimLeaseT SimLeaseC SimStable Causes SimCauses Witness2.
 Open Scope Z_scope.
 
 Theorem C07_lease_never_lapses_under_fast_store :
@@ -62,3 +62,18 @@ Print Assumptions C07_partial_never_demoted_by_the_watcher.
 Theorem C07_partial_watcher_nonvacuous : admits base0 lease_witness = true /\ env_admits base0 lease_witness = true.
 Proof. exact (conj lease_witness_admitted lease_witness_env). Qed.
 Print Assumptions C07_partial_watcher_nonvacuous.
+
+(* four more causes excluded, for every trace that satisfies rules 2083-2085 (Sim/Causes.v, validated on every real trace like
+   the rules of Proto.v) in the quiet environment of this property (no connection notification, healthy health checks): the
+   grace-period path, the verification after a reconnect, the health path and the acquisition rounds never give up a claim.
+   With the two theorems above, what can end a term in the property's environment is a stop, a cancelled context, or the
+   validation of the fencing token - the last one is decided by the monitor only. *)
+Theorem C07_partial_never_demoted_by_connection_health_or_acquisition :
+  forall tr, cadmits base0 caux0 tr = true -> envQ_admits tr = true ->
+  forall pre te post, tr = pre ++ te :: post -> other_demotion (brun pre) te = false.
+Proof. exact (fun tr => C07_never_demoted_by_connection_health_or_acquisition tr base0 caux0 eq_refl eq_refl). Qed.
+Print Assumptions C07_partial_never_demoted_by_connection_health_or_acquisition.
+
+Theorem C07_partial_quiet_nonvacuous : cadmits base0 caux0 lease_witness = true /\ envQ_admits lease_witness = true.
+Proof. exact quiet_witness. Qed.
+Print Assumptions C07_partial_quiet_nonvacuous.
